@@ -181,10 +181,10 @@ AggRow(rows, keys, spec, g) ==
             [] spec[j].op = "count"  -> Cell("I", Cardinality(I))
             [] spec[j].op = "countd" -> Cell("I", Cardinality({rows[i][spec[j].i] : i \in I}))
             [] spec[j].op = "sum"    -> Cell(rows[any][spec[j].i].k, SumSet(rows, spec[j].i, I))]
-\* sums are judged only when every summed cell of the group is of one numeric kind
+\* sums are judged only when every cell of the summed column is of one numeric kind
 SumJudgeable(rows, keys, spec) ==
     \A j \in DOMAIN spec : spec[j].op = "sum" =>
-        \A g \in GroupsOf(rows, keys) : \E k \in {"I", "F"} : \A i \in Members(rows, keys, g) : rows[i][spec[j].i].k = k
+        \E k \in {"I", "F"} : \A i \in DOMAIN rows : rows[i][spec[j].i].k = k
 GroupOK(grouped, rows, keys, spec) ==
     LET exp == {AggRow(rows, keys, spec, g) : g \in GroupsOf(rows, keys)}
     IN  /\ Len(grouped) = Cardinality(GroupsOf(rows, keys))       \* exactly one row per group
@@ -201,6 +201,8 @@ Rank(c) == CASE c.k \in {"I", "F", "T"} -> c.v
              [] c.k = "S" -> STRPR[c.v].s
              [] c.k = "B" -> c.v
              [] OTHER -> 0
+\* Deviation "numbers-compared-as-padded-text" for sorting (classification only)
+DevSortRank(c) == IF c.k \in {"I", "F"} /\ c.v < 0 THEN 0 - 1000000 - c.v ELSE Rank(c)
 \* key columns judged only when all their values are of one kind
 OneKind(rows, col) == \A i, j \in DOMAIN rows : rows[i][col].k = rows[j][col].k
 Judgeable(rows, order) == \A o \in Range(order) : OneKind(rows, o.i)
@@ -234,27 +236,48 @@ TotalOrder(rows, order) == \A i, j \in DOMAIN rows : rows[i] # rows[j] => CmpFro
 \*    lc |-> column index (0 = constant), lk/lv |-> constant cell, rc, rk, rv]
 \* root = node 1.
 Operand(row, col, k, v) == IF col > 0 THEN row[col] ELSE Cell(k, v)
-\* numbers numerically, times as instants, text and extracted ids/types lexicographically;
+\* numbers numerically, times as instants, text and extracted ids/types lexicographically (a text
+\* literal and a string produced by ID/TYPE are both "text" here and compare by their characters);
 \* values of different kinds never compare true; = on nodes, predicates, bools is identity
-Ordered(k) == k \in {"I", "F", "T", "X", "S"}
-CmpOpen(a, b, cop) == a.k = b.k /\ ~Ordered(a.k) /\ cop # "="     \* < > on nodes/predicates/bools: not stated
+HKind(c) == IF c.k \in {"X", "S"} THEN "txt" ELSE c.k
+HRank(c) == IF c.k \in {"X", "S"} THEN STRPR[c.v].s ELSE c.v
+Ordered(k) == k \in {"I", "F", "T", "txt"}
+CmpOpen(a, b, cop) == HKind(a) = HKind(b) /\ ~Ordered(HKind(a)) /\ cop # "="     \* < > on nodes/predicates/bools: not stated
 CmpHolds(a, b, cop) ==
-    IF a.k # b.k \/ a.k = "0" THEN FALSE
-    ELSE CASE cop = "=" -> a = b
-           [] cop = "<" -> Rank(a) < Rank(b)
-           [] cop = ">" -> Rank(a) > Rank(b)
-RECURSIVE Eval(_, _, _)
-Eval(e, n, row) ==
+    IF HKind(a) # HKind(b) \/ a.k = "0" THEN FALSE
+    ELSE IF Ordered(HKind(a))
+         THEN CASE cop = "=" -> HRank(a) = HRank(b)
+                [] cop = "<" -> HRank(a) < HRank(b)
+                [] cop = ">" -> HRank(a) > HRank(b)
+         ELSE cop = "=" /\ a = b
+\* Deviation "numbers-compared-as-padded-text" (Layer B, classification only): int64/float64 cells are
+\* compared through their zero padded decimal text, which reverses the order of two negative numbers
+DevRank(c) == IF c.k \in {"I", "F"} /\ c.v < 0 THEN 0 - 1000000 - c.v ELSE HRank(c)
+CmpHoldsDev(a, b, cop) ==
+    IF HKind(a) # HKind(b) \/ a.k = "0" THEN FALSE
+    ELSE IF Ordered(HKind(a))
+         THEN CASE cop = "=" -> DevRank(a) = DevRank(b)
+                [] cop = "<" -> DevRank(a) < DevRank(b)
+                [] cop = ">" -> DevRank(a) > DevRank(b)
+         ELSE cop = "=" /\ a = b
+RECURSIVE Eval(_, _, _, _)
+Eval(e, n, row, dv) ==
     LET x == e[n] IN
-    CASE x.op = "not" -> ~Eval(e, x.l, row)
-      [] x.op = "and" -> Eval(e, x.l, row) /\ Eval(e, x.r, row)
-      [] x.op = "or"  -> Eval(e, x.l, row) \/ Eval(e, x.r, row)
-      [] x.op = "cmp" -> CmpHolds(Operand(row, x.lc, x.lk, x.lv), Operand(row, x.rc, x.rk, x.rv), x.cop)
+    CASE x.op = "not" -> ~Eval(e, x.l, row, dv)
+      [] x.op = "and" -> Eval(e, x.l, row, dv) /\ Eval(e, x.r, row, dv)
+      [] x.op = "or"  -> Eval(e, x.l, row, dv) \/ Eval(e, x.r, row, dv)
+      [] x.op = "cmp" -> IF dv THEN CmpHoldsDev(Operand(row, x.lc, x.lk, x.lv), Operand(row, x.rc, x.rk, x.rv), x.cop)
+                         ELSE CmpHolds(Operand(row, x.lc, x.lk, x.lv), Operand(row, x.rc, x.rk, x.rv), x.cop)
 \* some comparison of the expression is between operands whose order the property does not state
+\* ... or between two bindings holding values of different kinds (the property only says that a
+\* value never compares true with a CONSTANT of another kind)
 HavingOpen(e, rows) == \E n \in DOMAIN e : e[n].op = "cmp" /\ \E i \in DOMAIN rows :
-    CmpOpen(Operand(rows[i], e[n].lc, e[n].lk, e[n].lv), Operand(rows[i], e[n].rc, e[n].rk, e[n].rv), e[n].cop)
+    LET a == Operand(rows[i], e[n].lc, e[n].lk, e[n].lv)
+        b == Operand(rows[i], e[n].rc, e[n].rk, e[n].rv)
+    IN  CmpOpen(a, b, e[n].cop) \/ (e[n].lc > 0 /\ e[n].rc > 0 /\ HKind(a) # HKind(b))
 \* every comparison is between operands of one kind for every row (then an error is not acceptable)
 HavingSameKinds(e, rows) == \A n \in DOMAIN e : e[n].op = "cmp" => \A i \in DOMAIN rows :
-    Operand(rows[i], e[n].lc, e[n].lk, e[n].lv).k = Operand(rows[i], e[n].rc, e[n].rk, e[n].rv).k
-FilterSeq(rows, e) == SelectSeq(rows, LAMBDA r : Eval(e, 1, r))
+    HKind(Operand(rows[i], e[n].lc, e[n].lk, e[n].lv)) = HKind(Operand(rows[i], e[n].rc, e[n].rk, e[n].rv))
+FilterSeq(rows, e) == SelectSeq(rows, LAMBDA r : Eval(e, 1, r, FALSE))
+FilterSeqDev(rows, e) == SelectSeq(rows, LAMBDA r : Eval(e, 1, r, TRUE))
 =============================================================================
